@@ -221,7 +221,7 @@ def _invariant_loop(X, st, fr, ls, forinfo):
     if is_for:
         X.assume(seq.n >= 0)
     for ename, etext in ls.entry.items():
-        entryvals[ename] = spec.eval_spec(X, etext, env_for(idx0), fr.module)
+        entryvals[ename] = deref(spec.eval_spec(X, etext, env_for(idx0), fr.module))
         X.named_ghosts[ename] = entryvals[ename]
     for gname, (GT, ginit, gstep) in ls.ghost.items():
         if callable(ginit):
@@ -337,7 +337,10 @@ def _invariant_loop(X, st, fr, ls, forinfo):
         else:
             ghostvals[gname] = spec.eval_spec(X, gstep, now, fr.module)
     for name, role, f in inv_formulas(nidx):
-        oblige_split(X, '%s:loop%d.preserve.%s' % (fname, k, name), f, 'loop-preserve', role)
+        # proved-then-assumed: the structural invariants (wf.*) of the new state may be used by
+        # the clauses checked after them
+        oblige_split(X, '%s:loop%d.preserve.%s' % (fname, k, name), f, 'loop-preserve', role,
+                     assume_after=name.startswith('wf'))
     if dec0 is not None:
         dec1 = X.num(spec.eval_spec(X, ls.decreases, env_for(nidx), fr.module))
         X.oblige('%s:loop%d.decreases' % (fname, k), z3.And(dec0 >= 0, dec1 < dec0),
